@@ -405,7 +405,8 @@ class Reporter:
                 def fails(bs, _cls=cls, _md=md):
                     col = Collector()
                     evaluate(env, col, [dict(_md)], [bytes(bs)], [], quiet=True)
-                    hit = [f for f in col.fails if f[0] == _cls and not f[5]]
+                    open_keys = {k["key"] for k in env.known if k.get("status", "open") == "open"}
+                    hit = [f for f in col.fails if f[0] == _cls and f[5] not in open_keys]
                     if hit:
                         fails.last = hit[0]
                     return bool(hit)
@@ -419,7 +420,7 @@ class Reporter:
                     body["shrink_error"] = repr(ex)
             body.update({"sentence_hex": small.hex(), "sentence_repr": repr(small)})
             body.update(sdetail)
-            body["replay_cmd"] = "VERIF_SEED=%d python3 check.py C14 --tier %s" % (self.ctx.seed, self.ctx.tier)
+            body["replay_cmd"] = "VERIF_SEED=%d python3 check.py C14 --tier %s --replay <this file>" % (self.ctx.seed, self.ctx.tier)
             self.ctx.violation(what, body)
         self.pending = {}
 
@@ -450,12 +451,11 @@ class Env:
     pass
 
 
-def run(ctx):
-    consts = {}
+def setup(ctx):
+    """proof phase + builds.  Returns (problems, env or None)."""
     problems, consts = flow.proof_phase(ctx, "C14", probe="probe_C14.cc", required=REQUIRED, drivers=["drv_C14"])
     driver_ok = not any(p.startswith("lake build failed") or p.startswith("regeneration") for p in problems)
     dexe = lean.driver_path("drv_C14") if driver_ok and os.path.exists(lean.driver_path("drv_C14")) else None
-    rep = Reporter(ctx)
 
     st_problems, nblocks = staleness()
     ctx.cov["pyx_blocks_checked"] = nblocks
@@ -465,8 +465,7 @@ def run(ctx):
     ok, bdir, lg = repo.build("tools")
     if not ok:
         problems.append(lg)
-        flow.report_obligation_failures(ctx, problems, False)
-        return
+        return problems, None
     bindir = os.path.join(bdir, "bin")
     ok, hexe, lg = repo.harness("c14.cc", config="tools", libs=True, extra=[REPO + "/python/score_sentence.cc"])
     if not ok:
@@ -475,13 +474,20 @@ def run(ctx):
     ok, extdir, lg = build_extension(bdir)
     if not ok:
         problems.append(lg)
-        flow.report_obligation_failures(ctx, problems, False)
-        return
-
+        return problems, None
     wd = os.path.join(SCRATCH, "build", repo.tree_hash(), "c14_models_%d_%s_%d" % (ctx.seed, ctx.tier, os.getpid()))
     os.makedirs(wd, exist_ok=True)
     env = Env()
     env.dexe, env.hexe, env.extdir, env.bindir, env.wd, env.known = dexe, hexe, extdir, bindir, wd, ctx.known
+    return problems, env
+
+
+def run(ctx):
+    problems, env = setup(ctx)
+    if env is None:
+        flow.report_obligation_failures(ctx, problems, False)
+        return
+    rep = Reporter(ctx)
     try:
         job_models, all_sents = prepare(ctx, env, problems)
         env.model_by_name = {m["name"]: m for m in job_models}
@@ -489,7 +495,7 @@ def run(ctx):
         rep.flush(env)
     finally:
         import shutil
-        shutil.rmtree(wd, ignore_errors=True)
+        shutil.rmtree(env.wd, ignore_errors=True)
     ctx.cov["rule"] = ("one case = (model file, sentence); distinct by (model name, sentence bytes); non-trivial when the sentence "
                        "has >= 2 tokens or contains a non-space whitespace/NUL/non-ASCII byte; every case is evaluated for all "
                        "four bos/eos combinations through score, full_scores, perplexity, the stateful API, `in`, the typed and "
@@ -499,6 +505,36 @@ def run(ctx):
                         "stateful API compared only for sentences whose tokens are valid UTF-8 (BaseScore takes str)",
                         "bin/query compared only for sentences without '\\n' (query reads one sentence per line)"]
     flow.report_obligation_failures(ctx, problems, rep.found)
+
+
+def replay(ctx, path):
+    """python3 check.py C14 --replay replays/C14/<hash>.json   (with the VERIF_SEED / --tier recorded in the file, so that
+    the same model files are regenerated).  Re-evaluates the recorded sentence on the recorded model (all models if the
+    name is unknown); exit 1 iff a violation is reproduced."""
+    body = json.load(open(path))
+    problems, env = setup(ctx)
+    if env is None:
+        log("cannot set up: %s" % problems)
+        return 2
+    try:
+        job_models, _ = prepare(ctx, env, problems)
+        sel = [m for m in job_models if m["name"] == body.get("model")] or job_models
+        s = bytes.fromhex(body.get("sentence_hex", ""))
+        col = Collector()
+        evaluate(env, col, [dict(m) for m in sel], [s], problems)
+        open_keys = {k["key"] for k in env.known if k.get("status", "open") == "open"}
+        bad = [f for f in col.fails if f[5] not in open_keys]
+        known = sorted({f[5] for f in col.fails if f[5] in open_keys})
+        for cls, what, model, sent, detail, key in bad:
+            print("REPRODUCED class=%s model=%s sentence=%r: %s %s" % (cls, model, sent, what, json.dumps(detail, default=str)[:600]))
+        if known:
+            print("known findings hit: %s" % known)
+        if problems:
+            print("broken obligations: %s" % [p[:300] for p in problems])
+        return 1 if (bad or problems) else 0
+    finally:
+        import shutil
+        shutil.rmtree(env.wd, ignore_errors=True)
 
 
 def prepare(ctx, env, problems):
